@@ -103,6 +103,14 @@ TypeOK == /\ m.phase \in {"parse", "match", "tail", "done"}
 \* patterns ending in a lone backslash are rejected.
 Agree == m.phase = "done" => m.result = Declarative(m.pat, m.str)
 
+\* A law of the language the replay amplifies far beyond the bounds: a star in front (behind) absorbs anything put in front of
+\* (behind) a string of the language - however long, however many near misses of the following literal it holds.
+StarAbsorbs ==
+  (m.phase = "done" /\ Declarative(m.pat, m.str) = "true") =>
+     \A x \in SeqsUpTo(Alphabet, 1) \cup {SubSeq(m.str, 1, Len(m.str) - 1)} :
+        /\ Declarative(<<42>> \o m.pat, x \o m.str) = "true"
+        /\ Declarative(m.pat \o <<42>>, m.str \o x) = "true"
+
 FairSpec == Spec /\ WF_vars(Next)
 \* The matcher always terminates.
 Terminates == <>(m.phase = "done")
